@@ -76,6 +76,41 @@ static inline std::vector<Item> pool()
                      return pk.empty() ? A::Packet() : *pk[0];
                  },
                  true});
+    // decoder-produced typed packets (they own an object of the concrete payload class) whose payload was then edited IN PLACE through
+    // getPayload() into a state the class's own validity check rejects: still a value like any other
+    v.push_back({"decoder-produced CAN packet, crc error flag set in place",
+                 [] {
+                     ref::CanF f;
+                     f.idword = 0x2AB; f.dlc = 4; f.dataLen = 4; f.data = pat(4, 8);
+                     ref::FrameHdr fh;
+                     fh.device = 0x98; fh.stream = 7; fh.seq = 45;
+                     Bytes fr = ref::buildFrame(fh, {ref::mkMsg(ref::PT_CAN, ref::canPayload(f), 0x01, 0xABCDE0, 0x56)});
+                     A::Decoder d;
+                     auto pk = d.decode(fr.data(), fr.size());
+                     if (pk.empty())
+                         return A::Packet();
+                     A::Packet p = std::move(*pk[0]);   // moved, not copied: keeps the payload object the decoder created
+                     static_cast<A::CanPayloadBase&>(p.getPayload()).setFlag(A::CanPayloadBase::Flags::crcErr, true);
+                     return p;
+                 },
+                 true});
+    v.push_back({"decoder-produced Ethernet packet, data length raised beyond the bytes in place",
+                 [] {
+                     ref::EthF f;
+                     f.dataLen = 6; f.data = pat(6, 9);
+                     ref::FrameHdr fh;
+                     fh.device = 0x97; fh.stream = 6; fh.seq = 46;
+                     Bytes fr = ref::buildFrame(fh, {ref::mkMsg(ref::PT_ETH, ref::ethPayload(f), 0x02, 0xABCDE1, 0x57)});
+                     A::Decoder d;
+                     auto pk = d.decode(fr.data(), fr.size());
+                     if (pk.empty())
+                         return A::Packet();
+                     A::Packet p = std::move(*pk[0]);   // moved, not copied: keeps the payload object the decoder created
+                     uint8_t* raw = const_cast<uint8_t*>(p.getPayload().getRawPayload());
+                     raw[4] = 0x01;   // data length 0x0106 > 6 bytes present
+                     return p;
+                 },
+                 true});
     v.push_back({"all header fields distinctive", [] { return distinctive(0x44, ST::intermediarySegment, 0xFE); }, true});
     v.push_back({"... stream id differs", [] { return distinctive(0x45, ST::intermediarySegment, 0xFE); }, true});
     v.push_back({"... segment type differs", [] { return distinctive(0x44, ST::lastSegment, 0xFE); }, true});
